@@ -113,6 +113,9 @@ def pool(tier, seed):
     # logical negation as an operand of arithmetic and comparison parents (its text begins with a low-precedence keyword)
     for n1, b1 in BIN.items():
         out += [(f"{n1}(l=Not)", b1(p.LogicalNot(q), c)), (f"{n1}(r=Not)", b1(c, p.LogicalNot(q))), (f"{n1}(l=Not-var)", b1(p.LogicalNot(a), b))]
+    # logical operators on operands that are not truth values (Python's and / or return an operand, the evaluator a truth value)
+    out += [("Or(non-boolean)", p.LogicalOr((a, b))), ("And(non-boolean)", p.LogicalAnd((a, b))), ("Or3(non-boolean)", p.LogicalOr((a, p.Sum((b, 1)), c))),
+            ("Sum(Or(non-boolean))", p.Sum((p.LogicalOr((a, b)), 1))), ("If(cond=Or(non-boolean))", p.If(p.LogicalOr((a, b)), b, c))]
     out += [("Comparison(l=Not)", p.Comparison(p.LogicalNot(a), "==", b)), ("Comparison(r=Not)", p.Comparison(b, "!=", p.LogicalNot(a))), ("Not(Not)", p.LogicalNot(p.LogicalNot(a))),
             ("Not(Sum)", p.LogicalNot(p.Sum((a, b)))), ("Neg(Not)", p.Product((-1, p.LogicalNot(a)))), ("If(cond=Not)", p.If(p.LogicalNot(a), b, c)),
             ("And(Not, var)", p.LogicalAnd((p.LogicalNot(a), p.Comparison(b, ">", 0))))]
@@ -214,6 +217,10 @@ def check_expr(b, label, e):
 
     cause = " cause=empty-nary-node" if any(isinstance(n, (p_.Sum, p_.Product, p_.BitwiseOr, p_.BitwiseXor, p_.BitwiseAnd, p_.LogicalOr, p_.LogicalAnd)) and not n.children
                                             for n in all_nodes_(e)) else ""
+
+    if not cause and any(isinstance(n, (p_.LogicalOr, p_.LogicalAnd)) and any(not isinstance(c, (p_.Comparison, p_.LogicalNot, p_.LogicalOr, p_.LogicalAnd, bool)) for c in n.children)
+                         for n in all_nodes_(e)):
+        cause = " cause=logical-operator-on-non-boolean"
 
     def fail(what, detail, expected, actual, fns, **case):
         what = what + cause
